@@ -279,8 +279,11 @@ register('C12',
          'mpmath monitor whose boolean the trace specification requires.',
          'Trusted: TLC; AUX (not model checking): mpmath transcriptions of the SP 800-22 formulas for Frequency, BlockFrequency, Runs, '
          'LongestRuns, Serial, ApproximateEntropy, cumulative sums and excursions; exact-rational DP for longest-run tables; rank '
-         'distribution product formula. Spectral, rank, templates, Universal, LinearComplexity: ladder / thresholds / range / '
-         'invariances only. Known finding: the M = 10^4 table is NIST\'s printed (inexact) one.',
+         'distribution product formula (13 matrix shapes); since round 2 also BinaryMatrixRank (own GF(2) elimination, exact class '
+         'probabilities), Spectral (numpy FFT, both sides of a threshold tie admitted), both template tests (exact class probabilities by '
+         'DP for the overlapping one), Universal (SP 800-22 table; the block length the reference uses is checked against '
+         'NistStats.UniversalL) and both p-values of LinearComplexity (textbook Berlekamp-Massey + the census of BerlekampMassey.tla). '
+         'Known finding: the M = 10^4 table is NIST\'s printed (inexact) one.',
          'TLA+ spec (NistStats.tla) model-checked with TLC (AppendBit machine vs definitions, lemmas) + threshold-grid and exhaustive short-string replays + TLC trace validation; real-valued formulas by an auxiliary monitor',
          'DESIGN.md 5/C12')
 
